@@ -485,6 +485,17 @@ def judge_lits(ctx, cfg, inputs, aux=None):
             v.append({'what': what, 'cfg': cfg, 'input': hx(d), 'literal': d[:200].decode('latin-1'),
                       'expected': 'correctly rounded %s (exact big-integer oracle): %s' % (target, e), 'actual': a,
                       'op': 'from_str/from_slice/from_reader::<%s>, in a Vec, in a Value' % target, 'aux': {'target': target}})
+    # the f32 GLUE model of de.rs (Model/Lex.v f32_fr & co. behind NumF32's parser: Extract/Driver_f32.v, proved equal to the specification the typed
+    # model uses) against the crate's own answer, on a sample of the f32 literals (~2-20 ms per literal in the extracted model)
+    if target == 'f32' and ctx.model_ok and os.path.exists(os.path.join(engine.VERIF, 'ocaml', 'sjdriver_f32')):
+        gi = [i for i in pick(inputs, 2500 if ctx.tier == 'quick' else 20000, 60 if ctx.tier == 'quick' else 400) if outs[i].startswith(('ok ', 'err '))]
+        gm = model_lines(ctx, ['g32 %s' % hx(inputs[i]) for i in gi], 'sjdriver_f32')
+        if gm is not None:
+            for i, m in zip(gi, gm):
+                if m != outs[i]:
+                    v.append({'what': 'f32-glue-model-differs', 'cfg': cfg, 'input': hx(inputs[i]), 'literal': inputs[i][:200].decode('latin-1'),
+                              'expected': 'glue model (Extract/Driver_f32.v): ' + m, 'actual': outs[i], 'aux': {'target': target}, 'shrinkable': False})
+            ctx.count('f32-glue-model-lines', len(gi))
     # the Coq side on a sample (all of it when the list is short, e.g. in a replay)
     mult = 1 if ctx.tier == 'quick' else 2
     parts = [lit_parts(d) for d in inputs]
